@@ -1,0 +1,10 @@
+//go:build verif
+
+package grammar
+
+import "github.com/ChrisTrenkamp/xsel/grammar/token"
+
+// VerifTokens returns the tokens Build hands to the parser for xpath.
+func VerifTokens(xpath string) []*token.Token {
+	return newLexer(xpath).Tokens
+}
